@@ -23,9 +23,9 @@ def register(R, P):
         d = {"targets": list(dict.fromkeys(targets)), "shards": BIG, "trusted_base": TB_EXEC}
         d.update(kw); P[pid] = d
     prop("C01", EXECUTOR + ["CellsImpl.on_eval_formula", "CellsImpl._store_value", "CellsImpl.has_node", "CellsImpl.get_value_from_key",
-                            "key_to_node", "Impl.get_property"])
+                            "key_to_node", "Impl.get_property", "CustomChainMap.__getitem__", "CustomChainMap.__contains__"])
     prop("C02", GRAPH + ["CallStack.pop", "CallStack.rollback", "NonThreadedExecutor._eval_formula", "NonThreadedExecutor.eval_node", "CellsImpl.on_clear_trace", "CellsImpl.clear_value_at",
-                         "CellsImpl.clear_all_values", "CellsImpl.on_namespace_change", "UserCellsImpl.on_set_property", "ReferenceImpl.on_inherit", "UserCellsImpl.on_set_property", "node_has_key"])
+                         "CellsImpl.clear_all_values", "CellsImpl.on_namespace_change", "UserCellsImpl.on_set_property", "ReferenceImpl.on_inherit", "node_has_key", "LazyEval.notify", "CellsImpl.on_inherit"])
     prop("C05", EXECUTOR + ["CellsImpl._store_value", "Impl.get_property", "CellsImpl.on_eval_formula"],
          assumptions=["interpreter C-stack depth ('chains shorter than the limit evaluate without crashing') is not decided by any contract; probed by the bounded driver"])
     prop("C06", VALUES + ["TraceGraph.remove_with_descs", "TraceGraph.get_startnodes_from", "TraceManager.clear_with_descs",
@@ -33,7 +33,7 @@ def register(R, P):
     prop("C08", EXECUTOR + ["CellsImpl.has_node", "TraceGraph.get_nodes_with", "TraceGraph.remove_with_descs", "TraceManager.clear_with_descs",
                             "CellsImpl.clear_all_values", "BaseSpaceImpl.on_delete"])
     prop("C13", ["BaseSpaceImpl.on_delete", "CellsImpl.clear_all_values", "CellsImpl.clear_value_at", "TraceManager.clear_obj",
-                 "TraceManager.clear_with_descs", "TraceGraph.clear_obj"],
+                 "TraceManager.clear_with_descs", "TraceGraph.clear_obj", "UserSpaceImpl.on_del_cells"],
          assumptions=["Impl.on_delete (null-impl handles), DynamicSpaceImpl/DynamicBase/UserSpaceImpl.on_delete, SpaceUpdater.del_defined_space and the "
                       "re-derivation of subs are covered by the bounded driver only"])
     prop("C09", ["CallStack.append", "CallStack.pop", "NonThreadedExecutor.eval_node", "CellsImpl.on_eval_formula",
@@ -72,7 +72,7 @@ def register4(R, P):
                 "trusted_base": ["model/space layer reference operations (SpaceManager.new_ref/del_ref/change_ref, ModelImpl.new_ref/del_ref/change_ref): frame + effect on own_refs, assumed",
                                  "IOManager.get_spec_from_value / del_spec over the ghost set `specs`", "id() injective on live objects"],
                 "assumptions": ["IOManager internals (BiDict, SharedIO tables), update_value, new_pandas undo paths and space deletion (del_space_refs) are covered by the bounded driver only"]}
-    P["C12"] = {"targets": list(P["_names"]), "shards": {},
+    P["C12"] = {"targets": list(P["_names"]) + ["CustomChainMap.__getitem__", "CustomChainMap.__contains__", "LazyEval.notify"], "shards": {},
                 "trusted_base": ["SharedSpaceOperations._get_subs (networkx descendants / topological order) as the uninterpreted set subs(); namespace property modelled as a field equal to _namespace.fresh"],
                 "assumptions": ["add_bases conflict check, new_cells/rename guards, LazyEval refresh and dir() are covered by the bounded driver only"]}
 
@@ -85,8 +85,13 @@ def register5(R, P):
                                  "Formula construction validates and has no effect on the model"],
                 "assumptions": ["the transactional behaviour of new_space/add_bases/remove_bases/del_defined_space beyond this, name validation and the "
                                 "description-level 'nothing changed' check: bounded driver only"]}
-    P["C03"] = {"targets": ["SpaceManager.set_cells_property", "SpaceGraph.max_index"], "shards": {},
-                "trusted_base": ["_get_subs (descendants in topological order), get_deriv_bases()[0] as the uninterpreted first_defined_base (C3 itself: bounded against CPython)",
+    P["C03"] = {"targets": ["SpaceManager.set_cells_property", "SpaceGraph.max_index"] + list(P["_inherit"]),
+                "shards": {"UserSpaceImpl.on_inherit@cells": 8, "UserSpaceImpl.on_inherit@own_refs": 10},
+                "trusted_base": ["UserSpaceImpl.on_inherit uses call-site views of its callees (derived-placeholder constructors of UserCellsImpl / ReferenceImpl, "
+                                 "CellsImpl.on_inherit, ReferenceImpl.on_inherit, on_del_cells, on_del_ref, clear_attr_referrers); CustomChainMap.__init__/__iter__ modelled "
+                                 "(maps = the given mappings; iteration yields each key of the union once); member order inside the mappings not specified",
+                                 "the `bases` argument is the C3 linearisation computed by get_mro (bounded against CPython's C3) and every member a base holds is defined by some base (DEFINED-SOURCE, "
+                                 "precondition: subs are re-derived in topological order by update_subs, which is not under contract)","_get_subs (descendants in topological order), get_deriv_bases()[0] as the uninterpreted first_defined_base (C3 itself: bounded against CPython)",
                                  "UserCellsImpl.on_set_property through its call-site view (applied once; flag set): proved separately under C09",
                                  "Formula construction may raise and has no effect on the model; clear_subs_rootitems does not touch cells flags"],
-                "assumptions": ["UserSpaceImpl.on_inherit, SpaceUpdater scheduling, new_cells/new_ref/change_ref/rename_cells propagation, get_mro: bounded driver only"]}
+                "assumptions": ["SpaceUpdater scheduling / update_subs, new_cells/new_ref/change_ref/rename_cells propagation, get_mro: bounded driver only"]}
